@@ -32,7 +32,9 @@ Inductive stage :=
 | GPar (n : nat)
 | GOla (size hop : nat) (auto : bool)
 | GResample (order old new : nat)
-| GCycle.
+| GCycle
+| GZcross (h : nat)                        (* zcross with hysteresis h on the counting source (first_sign = 0) *)
+| GBatched (n : nat).
 
 (* AudioLazy's rint(.5*(order+1)) (half away from zero) and int(.5*(order+1)) *)
 Definition rs_n0 (order : nat) : nat := (order + 2) / 2.
@@ -59,6 +61,8 @@ Definition smach (g : stage) : machine nat nat :=
   | GResample order old new =>
       mresample 0 (rs_n0 order) (rs_idx0 order new) (rs_thr order new) (rs_stp old) (rs_one new)
   | GCycle => mcycle
+  | GZcross h => mzcross (fun x => h <? x)
+  | GBatched n => omap (fun _ => 0) (mbatched n)
   end.
 
 (* a pipeline: the first stage reads the sources, every later stage reads the previous one *)
@@ -66,9 +70,9 @@ Definition pmach (first : stage) (rest : list stage) : machine nat nat :=
   fold_left (fun m g => comp (smach g) m) rest (smach first).
 
 (* erased events: what the harness can see from outside *)
-Inductive eev := ER (i : nat) | EY | ES | EX (e : string) | EO.
+Inductive eev := ER (i : nat) | EE (i : nat) | EY | ES | EX (e : string) | EO.
 Definition erase {O : Type} (e : ev O) : eev :=
-  match e with EvRead i => ER i | EvYield _ => EY | EvStop => ES | EvRaise x => EX x | EvOut => EO end.
+  match e with EvRead i => ER i | EvEnd i => EE i | EvYield _ => EY | EvStop => ES | EvRaise x => EX x | EvOut => EO end.
 
 Definition fuel0 : nat := 3000.
 Definition ptrace (first : stage) (rest : list stage) (ds : list srcd) (k : nat) : list eev :=
@@ -82,11 +86,11 @@ Definition ptrace (first : stage) (rest : list stage) (ds : list srcd) (k : nat)
 Fixpoint drain (fuel : nat) (d : srcd) (p : nat) : list eev :=
   match fuel with
   | 0 => [EO]
-  | S f => ER 0 :: match src_resp d p with
-                   | Item _ => drain f d (S p)
-                   | End => []
-                   | Boom => [EX tripwire]
-                   end
+  | S f => match src_resp d p with
+           | Item _ => ER 0 :: drain f d (S p)
+           | End => [EE 0]
+           | Boom => [ER 0; EX tripwire]
+           end
   end.
 Definition ctrace (eager : bool) (ds : list srcd) : list eev :=
   if eager then drain 100 (nth 0 ds (SFin 0)) 0 else [].
